@@ -276,6 +276,12 @@ async def settle(w: World, quiet: float = 0.25, limit: float = 12.0):
             n = len(w.obs)
             t_q = time.time()
         elif time.time() - t_q >= quiet:
+            # the child has gone but the run has not been closed out yet (process exit -> executor shutdown in a
+            # thread -> end-run takes a while under load) and the harness is not withholding any gate: in transit
+            held = any(getattr(g, 'info', {}).get('held') and not g.is_set() for gs in w.gates.values() for g in gs)
+            in_transit = (w.procs and not w.alive() and w.state() == 'running' and not held)
+            if in_transit and time.time() - t_q < quiet + 3.0:
+                continue
             return True
     return False
 
